@@ -28,6 +28,19 @@ ASSUMPTIONS = [
     "approximation (relative error < 2^-60, exact on squares)",
     "decimal documents (multiples of 0.1) are checked by the direct oracle only",
     "a mapping with a repeated key is not a Python dict (ruamel raises DuplicateKeyError): the model rejects such association lists",
+    "strings are handed to the model as their UTF-8 bytes (any str, control characters and non-ASCII included); a mapping key "
+    "that is no str (YAML null / true / 12 / 1e3) as the byte 255 followed by its repr - no str encodes to that, so the model "
+    "sees what the code can see of it: no identifier, no keyword, different from every other key; None is the tree YNull",
+    "input forms: the document written by the real write_yaml, a YAML text spelled by the harness, or the name of a file holding "
+    "either is given to Netlist(...) only when the real loader (YAML(typ='safe')) reads exactly the document back from it "
+    "(types, key order, sign of zero); otherwise the tree itself is given. The model is run on that document",
+    "histories: each load (also those that precede the observed one) starts from an undefined Rectangle epsilon; the model is a "
+    "function of the current document, so a stale cache or shared object shows as a disagreement",
+    "which assertion rejects a document is not compared (only accepted / rejected); the agreement of the assertion class with "
+    "the model's is recorded as a statistic (rejections_same_assertion_as_model)",
+    "geometry tolerances are relative to the smallest dimension of the design: boundary-valid documents keep every area / size "
+    "at the scale of the coordinates (>= 1/16 for coordinates below 2^8); the one document below that scale is the open finding "
+    "C05/well-formed-rejected-small-scale",
 ]
 
 CLASSES = ["unknown-module", "nonpositive-weight", "nonpositive-area", "soft-without-area", "hard-with-area",
@@ -471,6 +484,21 @@ def gobserved(obs) -> str:
             + glist([gmrect(r) for r in n1["rects"]]) + " "
             + gopt(None if n1["eps"] is None else gqpair(n1["eps"])) + " "
             + gtree(obs["tree1"]) + " " + glist(sq) + ")")
+
+
+def reason_stat(ctx, out, pairs):
+    """Statistic (no verdict depends on it): on how many rejected documents the assertion that fired is the one the
+    model fires. pairs = [(case, obs)]."""
+    exprs = []
+    for case, obs in pairs:
+        if obs.get("verdict") == "reject" and case.get("exact", True) and exact_doc(case["doc"]) \
+                and isinstance(case["doc"], (dict, list)) and reasons_of(obs.get("msg", "")):
+            eps = case.get("eps")
+            geps = gopt(None if eps is None else f"({gq(eps[0])}, {gq(eps[1])})")
+            exprs.append(f"reason_agrees {geps} {gtree(case['doc'])} {gobserved(obs)}")
+    res = core.coq_eval_bools(ctx, HEADER, exprs, shard=400, tag="reasons") if exprs else []
+    out.extra["rejections_with_known_message"] = len(exprs)
+    out.extra["rejections_same_assertion_as_model"] = sum(1 for r in res if r is True)
 
 
 def to_coq(case, obs):
